@@ -176,7 +176,11 @@ func mountIndexer(defaultPath string) indexer {
 		case map[string]any:
 			t, ok := v["target"]
 			if ok {
-				return t.(string), nil
+				target, isString := t.(string)
+				if !isString {
+					return "", fmt.Errorf("%s: unexpected type %T", path, t)
+				}
+				return target, nil
 			}
 			return fmt.Sprintf("%s/%s", defaultPath, v["source"]), nil
 		default:
